@@ -25,6 +25,12 @@ theorem C18_dcl_built_once_when_done (K n : Nat) (sched : List Nat) (hn : 0 < n)
     (Dcl.run K (Dcl.init n) sched).builds = 1 ∧ (Dcl.run K (Dcl.init n) sched).cells = K :=
   dcl_built_once_when_done K n sched hn h
 
+/-- "the system-matrix cache may be used concurrently from the first call on, without lost or duplicated contributions":
+    every row handed out and every row stored is the row of its key, for every schedule.  The requests come from the
+    projectors' parallel loops and — exercised by the check since the list-mode scenarios were added — from the event loop of
+    `LM_distributable_computation`.  The model has find / compute / insert only: `clear_cache()` running at the same time is
+    NOT covered by this theorem (in the code it does not take the locks this model assumes; see the check's `clear_cache`
+    scenario and its finding). -/
 theorem C18_cache_returns_spec (spec : Nat → Int) (reqs : List (List Nat)) (sched : List Nat) :
     (∀ e ∈ (Cache.run spec (Cache.init reqs) sched).returned, e.2.2 = spec e.2.1) ∧
     (∀ e ∈ (Cache.run spec (Cache.init reqs) sched).store, e.2 = spec e.1) :=
